@@ -575,6 +575,10 @@ func (s *Sched) MarkClosed(ch interface{}) {
 	s.cur.vc.tick(s.cur.ID)
 }
 
+// MapOrderAlts selects the alternatives offered for a map iteration order:
+// "all" (canonical, reversed, every rotation) or "rev" (canonical, reversed).
+var MapOrderAlts = "all"
+
 // MapItem is one entry of a map iteration snapshot.
 type MapItem[K comparable, V any] struct {
 	m map[K]V
@@ -602,7 +606,7 @@ func MapIter[M ~map[K]V, K comparable, V any](m M) []MapItem[K, V] {
 		if S != nil && !S.finishing && !S.cur.aborted {
 			n := len(keys)
 			opts := n + 1
-			if n == 2 {
+			if n == 2 || MapOrderAlts == "rev" {
 				opts = 2
 			}
 			// options: 0 = canonical, 1 = reversed, 2.. = rotations
